@@ -638,19 +638,31 @@ func (s *dsPresence) EndpointsByTargets(ctx context.Context, targets []onlinedel
 	w.mu.Lock()
 	// the plan: an admitted, not yet processed plan of this message, by content
 	// first, else the oldest one (plans of one message are processed in order)
+	// Only plans admitted by the node's CURRENT generation can still be
+	// processed: a restart happens after the previous generation's workers have
+	// exited, and a plan that generation cancelled before it ran (expired Stop)
+	// never reaches presence. Without this, two plans of one message with equal
+	// content (duplicate rows, batch size 1) admitted on either side of a
+	// restart would be confused.
 	var p *dsPlan
-	for _, q := range m.plans {
-		if q.enq != 3 && q.presCalls == 0 && reflect.DeepEqual(q.snap, seen) {
-			p = q
-			break
-		}
-	}
-	if p == nil {
+	gen := s.n.gen
+	for _, sameGen := range []bool{true, false} {
 		for _, q := range m.plans {
-			if q.enq != 3 && q.presCalls == 0 {
+			if q.enq != 3 && q.presCalls == 0 && (!sameGen || q.gen == gen) && reflect.DeepEqual(q.snap, seen) {
 				p = q
 				break
 			}
+		}
+		if p == nil {
+			for _, q := range m.plans {
+				if q.enq != 3 && q.presCalls == 0 && (!sameGen || q.gen == gen) {
+					p = q
+					break
+				}
+			}
+		}
+		if p != nil {
+			break
 		}
 	}
 	if p == nil {
@@ -1185,8 +1197,10 @@ func (w *dsWorld) doStart(n *dsNode) {
 	switch {
 	case err == nil:
 		if n.state != 1 {
+			w.mu.Lock()
 			n.gen++
 			n.genRelax = false
+			w.mu.Unlock()
 		}
 		n.state = 1
 		w.dropAcksOf(n.id, 0, "")
